@@ -33,13 +33,13 @@ def h_categorical(ctx, k, N, n_nan, pipeline, props):
     mf = ctx.real("min_freq")
     ctx.assume(mf > 0)
     ctx.assume(mf <= 0.5)
-    numeric = pipeline.endswith("_numeric")
+    numeric = pipeline.endswith("_numeric") or pipeline.endswith("_bigfloat")
     if numeric:
         # ordinal feature whose values are numbers while the ranking is given as strings (StringDiscretizer path,
-        # the only caller of GroupedList.update)
-        num_of = {c: i + 1 for i, c in enumerate(cats)}
+        # the only caller of GroupedList.update); '_bigfloat': float codes needing 7 significant digits
+        num_of = {c: ((i + 1) if pipeline.endswith("_numeric") else float((3 * i + 1) * 1000000 + i)) for i, c in enumerate(cats)}
         col = [num_of[v] if isinstance(v, str) else v for v in col]
-        cats = [str(num_of[c]) for c in cats]
+        cats = [str(int(num_of[c])) for c in cats]
     X = pd.DataFrame({"f": pd.Series(col, dtype=object)})
     y = pd.Series(ycol)
     ordinal = pipeline.endswith("_ordinal") or numeric
@@ -47,7 +47,7 @@ def h_categorical(ctx, k, N, n_nan, pipeline, props):
         d = CategoricalDiscretizer(["f"], min_freq=mf, copy=True, verbose=False)
     elif pipeline == "qualitative":
         d = QualitativeDiscretizer(["f"], min_freq=mf, copy=True, verbose=False)
-    elif pipeline in ("qualitative_ordinal", "qualitative_ordinal_numeric"):
+    elif pipeline in ("qualitative_ordinal", "qualitative_ordinal_numeric", "qualitative_ordinal_bigfloat"):
         d = QualitativeDiscretizer([], min_freq=mf, ordinal_features=["f"], values_orders={"f": list(cats)}, copy=True, verbose=False)
     elif pipeline == "discretizer_ordinal":
         from AutoCarver.discretizers import Discretizer
@@ -84,13 +84,25 @@ def h_categorical(ctx, k, N, n_nan, pipeline, props):
         allv = vo.values()
         for c in cats:
             ctx.require(c in allv, "C08.coverage", f"{pipeline}: ranking value {c!r} missing from values_orders {dict(vo.content)}")
+        # ordinal groups are contiguous runs of the supplied ranking, in ranking order (C03)
+        posr = {c: i for i, c in enumerate(cats)}
+        firsts = []
+        for l in vo:
+            idx = sorted(posr[v] for v in vo.content[l] if v in posr)
+            if idx:
+                ctx.require(idx == list(range(idx[0], idx[0] + len(idx))), "C03.ordinal-not-contiguous", f"{pipeline}: group {vo.content[l]} is not a contiguous run of the ranking {cats}")
+                firsts.append(idx[0])
+        ctx.require(firsts == sorted(firsts), "C03.ordinal-order", f"{pipeline}: groups out of ranking order: {dict(vo.content)}")
+        extra_leaders = [l for l in vo if l != NAN and not any(v in posr for v in vo.content[l])]
+        ctx.require(not extra_leaders, "C03.ordinal-order", f"{pipeline}: modalities outside the supplied ranking appeared: {extra_leaders} (ranking {cats}, values_orders {dict(vo.content)})")
         if numeric:
             out = d.transform(X)
+            sform = lambda v_: str(int(v_)) if float(v_) == int(v_) else str(v_)
             for v, o in zip(col, list(out["f"])):
                 if isinstance(v, float) and v != v:
                     continue
-                ctx.require(v in allv and vo.get_group(v) == vo.get_group(str(v)), "C04.string-form", f"{pipeline}: number {v!r} is not grouped with its string form: {dict(vo.content)}")
-                ctx.require(o == d.labels_per_values["f"][str(v)], "C04.string-form", f"{pipeline}: number {v!r} transformed to {o!r}, its string form's label is {d.labels_per_values['f'][str(v)]!r}")
+                ctx.require(v in allv and vo.get_group(v) == vo.get_group(sform(v)), "C04.string-form", f"{pipeline}: number {v!r} is not grouped with its string form: {dict(vo.content)}")
+                ctx.require(o == d.labels_per_values["f"][sform(v)], "C04.string-form", f"{pipeline}: number {v!r} transformed to {o!r}, its string form's label is {d.labels_per_values['f'][sform(v)]!r}")
         return dict(counters={"ok": 1}, sample=dict(sizes=sizes, pipeline=pipeline), result=dict(n=len(vo)))
     vo = d.values_orders["f"]
     groups = {l: list(vo.content[l]) for l in vo}
@@ -125,7 +137,7 @@ def obligation(tier, props, name):
             if N < k:
                 continue
             for n_nan in (0, 2):
-                for pipeline in ("categorical", "qualitative") + (("qualitative_ordinal", "discretizer_ordinal", "discretizer", "qualitative_ordinal_numeric") if "C08" in props else ()):
+                for pipeline in ("categorical", "qualitative") + (("qualitative_ordinal", "discretizer_ordinal", "discretizer", "qualitative_ordinal_numeric") if "C08" in props else ()) + (("qualitative_ordinal", "qualitative_ordinal_numeric", "qualitative_ordinal_bigfloat") if "C03" in props else ()):
                     jobs.append(dict(k=k, N=N, n_nan=n_nan, pipeline=pipeline, props=sorted(props)))
     return Obligation(
         name=name, harness=h_categorical, jobs=jobs,
